@@ -463,3 +463,30 @@ def alias_sources(fn, local, depth=6):
                         nxt.append(src)
         frontier = nxt
     return out
+
+
+def family_events(F, fn, kind=None, cleanup=False, _depth=0):
+    """events of fn plus those of the closures it constructs, the latter attributed to the block of fn in which
+    the closure value is built (closures passed to and_then/map/enter_safepoint run right there or later)"""
+    for i, b in enumerate(fn.blocks):
+        if b["c"] and not cleanup:
+            continue
+        for e in b["e"]:
+            if kind is None or e[0] == kind:
+                yield i, e
+            if e[0] == "closure" and e[1] in F.fns and _depth < 3:
+                for _, ce in family_events(F, F.fns[e[1]], kind, cleanup, _depth + 1):
+                    yield i, ce
+
+
+def family_calls(F, fn, _depth=0):
+    """(block_in_fn, call terminator) of fn and of the closures it constructs"""
+    for i, b in enumerate(fn.blocks):
+        if b["c"]:
+            continue
+        if b["k"] == "call":
+            yield i, b
+        for e in b["e"]:
+            if e[0] == "closure" and e[1] in F.fns and _depth < 3:
+                for _, cb in family_calls(F, F.fns[e[1]], _depth + 1):
+                    yield i, cb
